@@ -125,8 +125,17 @@ Step ==
             \* an abandoned generator: no verdict for it (it is simply no longer expected to be logged)
             /\ frames' = [frames EXCEPT ![e.fid].wanted = FALSE]
             /\ UNCHANGED <<pending, viol>>
-       [] e.ev \in {"Raise", "Propagate", "Throw"} ->
+       [] e.ev \in {"Raise", "Propagate"} ->
             /\ pending' = Complete(e.fid, TAbsent, TRUE)
+            /\ UNCHANGED <<frames, viol>>
+       [] e.ev = "Throw" ->
+            \* an exception thrown into a generator / coroutine that was never started is its entry AND its end
+            /\ LET fr0 == frames[e.fid]
+                   fr1 == IF fr0.entered THEN fr0 ELSE [fr0 EXCEPT !.entered = TRUE, !.must = (e.drawn /\ e.draw = 0)]
+               IN  pending' = IF fr1.wanted
+                              THEN Append(pending, [f |-> fr1.f, kind |-> fr1.kind, args |-> fr1.args, ys |-> fr1.ys, ret |-> TAbsent,
+                                                    exc |-> TRUE, must |-> fr1.must])
+                              ELSE pending
             /\ UNCHANGED <<frames, viol>>
        [] e.ev = "Log" ->
             \* the entry must describe a completed, not yet logged call exactly; when every call is
